@@ -247,7 +247,7 @@ fn op_strategy() -> BoxedStrategy<Op> {
         5 => (0u8..6, 0u8..6).prop_map(|(a, b)| Op::Connect(a, b)),
         2 => (0u8..6).prop_map(Op::Disconnect),
         2 => (0u8..6, prop_oneof![3 => [gen::mostly_moderate_any_finite(), gen::mostly_moderate_any_finite(), gen::mostly_moderate_any_finite()].boxed(), 2 => proptest::sample::select(vec![[1.5f32, -2.0, 0.25], [0.0, 0.0, 0.0], [-0.0, 0.0, 0.0], [3.0e38, 3.0e38, -3.0e38], [1.5, -2.0, 0.5]]).boxed()], t.clone()).prop_map(|(a, v, t)| Op::SetState(a, v, t)),
-        2 => (0u8..6, 0u8..3, gen::mostly_moderate_any_finite(), t).prop_map(|(a, k, v, t)| Op::SetCommand(a, k, v, t)),
+        2 => (0u8..6, 0u8..3, prop_oneof![9 => gen::mostly_moderate_any_finite(), 1 => proptest::sample::select(vec![f32::INFINITY, f32::NEG_INFINITY])], t).prop_map(|(a, k, v, t)| Op::SetCommand(a, k, v, t)),
     ]
     .boxed()
 }
@@ -283,7 +283,7 @@ fn matchings(n: usize) -> Vec<Vec<Option<usize>>> {
 pub struct C09;
 impl Property for C09 {
     const ID: &'static str = "C09";
-    const RULE: &'static str = "exhaustive: every matching on n=2..6 terminals (built on fresh real terminals by a canonical connect sequence) x every connect(i,j), i!=j, and disconnect(i); random: op histories of length 0..40 over {connect, disconnect, set state, set command} on 2..6 terminals, run once with coded states (2^i) to infer every terminal's partner from its state read after every step and once with the generated writes to check read semantics against the model. Non-trivial = the history applies a connect/disconnect to a terminal that is already linked; distinct = hash of the sequence of (matching before, op).";
+    const RULE: &'static str = "exhaustive: every matching on n=2..6 terminals (built on fresh real terminals by a canonical connect sequence) x every connect(i,j), i!=j, and disconnect(i); random: op histories of length 0..40 over {connect, disconnect, set state, set command (any f32 value that is not NaN, infinities included)} on 2..6 terminals, run once with coded states (2^i) to infer every terminal's partner from its state read after every step and once with the generated writes to check read semantics against the model. Non-trivial = the history applies a connect/disconnect to a terminal that is already linked; distinct = hash of the sequence of (matching before, op).";
     type Scenario = Scenario;
     fn strategy(_tier: Tier) -> BoxedStrategy<Scenario> {
         (2u8..=6, proptest::collection::vec(op_strategy(), 0..=40)).prop_map(|(n, ops)| Scenario { n, ops }).boxed()
@@ -327,7 +327,7 @@ impl Property for C09 {
     fn valid(s: &Scenario) -> bool {
         (2..=6).contains(&s.n) && s.ops.len() <= 40 && s.ops.iter().all(|o| match o {
             Op::SetState(_, v, _) => v.iter().all(|x| dom::finite(*x)),
-            Op::SetCommand(_, _, v, _) => dom::finite(*v),
+            Op::SetCommand(_, _, v, _) => dom::finite(*v) || v.is_infinite(),
             _ => true,
         })
     }
